@@ -6,10 +6,11 @@ reservation check against a fake admin store and an independent sum:
 * part A - every (partition record, set of existing reservations, replaced id,
   request traits, request size around every boundary) of the menus in
   mc/c19_model.py, one `reservation.create` / `reservation.update` call each;
-* part B - every history of <= 3 (quick: <= 2 + all third calls for a reduced
-  menu) create/update calls from an empty store, where the stored records are
-  the ones the real code wrote; partial updates (partition and/or traits
-  omitted, which the schema used by `update` allows) are part of the menu.
+* part B - every history of <= 3 create/update calls (quick: a smaller call
+  menu) from an empty store, so that the stored records are the ones the real
+  code wrote; partial updates (partition and/or traits omitted, which the
+  schema used by `update` allows) are part of the menu.  After every accepted
+  call the store itself must still be within capacity and trait limits.
 
 Verdict per call: returns normally <=> the oracle accepts, InvalidInputError
 <=> the oracle rejects, any other exception is a `service-failure`.
